@@ -308,12 +308,12 @@ def c12_queries(tier):
     return [cross_query('C12', 2, N, ['all-accept', 'all-reject'], 'noquote-4modes', timeout=3000),
             cross_query('C12', 3, N, ['accept-quoted', '822-only'], '5321-subset-822',
                         srcs=['src/is_822_local.c', 'src/is_5321_local.c'], timeout=3000),
-            pipeline_query('C12', 12 if tier == 'quick' else 16, timeout=3000)]
+            pipeline_query('C12', 9 if tier == 'quick' else 12, timeout=5000)]
 
 
 def c10_queries(tier):
     N = 8 if tier == 'quick' else 24
-    return [utf8dom_query('C10', N, N), pipeline_query('C10', 12 if tier == 'quick' else 16, timeout=3000),
+    return [utf8dom_query('C10', N, N), pipeline_query('C10', 9 if tier == 'quick' else 12, timeout=5000),
             email_query('C10', 3, 16 if tier == 'quick' else 40, covers=['end', 'idn-error', 'accepted-hostname', 'tld-class'])]
 
 
@@ -400,7 +400,49 @@ def c06_queries(tier):
     return qs
 
 
+LEAF_UNITS = ['src/is_822_local.c', 'src/is_5321_local.c', 'src/is_5322_local.c', 'src/is_6531_local.c', 'src/utf8_decode.c',
+              'src/is_ascii_domain.c', 'src/is_ipv4_ipv6.c', 'src/is_special_domain.c', 'src/is_tld.c']
+
+
+def c14_queries(tier):
+    N = 4 if tier == 'quick' else 7
+    qs = []
+
+    def mk(fn, units, extra, **kw):
+        return Query('C14-writeset-%s-N%d' % (fn, N), 'c14_contract.c', repo=units,
+                     defs=D(VF_N=N) + ['-D__NO_CTYPE'] + extra, stubs=['env.c', 'ctype_fn.c'], unwind=max(N + 4, 8),
+                     unwindset={'strspn.0': 24},
+                     instrument=[['--add-library', '--no-malloc-may-fail'], ['--no-malloc-may-fail', '--dfcc', 'harness', '--enforce-contract', fn]], replay=False,
+                     covers=['end'], bounds={'max_len': N, 'alphabet': '0x01-0xFF'}, functions=[fn],
+                     note='write set enforced by goto-instrument --dfcc against the contract declared in harness/c14_contract.c; '
+                          'not natively replayable (instrumentation exists only in the goto program)', timeout=3000, **kw)
+    pure = [('is_822_local', ['src/is_822_local.c'], "'@'"), ('is_5321_local', ['src/is_5321_local.c'], "'@'"),
+            ('is_5322_local', ['src/is_5322_local.c'], "'@'"), ('is_6531_local', ['src/is_6531_local.c', 'src/utf8_decode.c'], "'@'"),
+            ('is_ascii_domain', ['src/is_ascii_domain.c'], '0'), ('is_ipv4', ['src/is_ipv4_ipv6.c'], "']'"),
+            ('is_ipv6', ['src/is_ipv4_ipv6.c'], "']'"), ('is_ipaddr', ['src/is_ipv4_ipv6.c'], "']'"),
+            ('is_special_domain', ['src/is_special_domain.c'], '0'), ('is_tld', ['src/is_tld.c'], '0')]
+    for fn, units, endch in pure:
+        extra = D(VF_PURE=fn, VF_ENDCH=endch) + (['-DVF_SMALL_TABLE'] if fn == 'is_tld' else [])
+        qs.append(mk(fn, units, extra))
+    dom = ['partial/idn2/is_utf8_domain.c', 'src/is_ascii_domain.c', 'src/is_special_domain.c', 'src/is_tld.c']
+    qs.append(mk('is_utf8_domain', dom, D(VF_UDOM=None, VF_SMALL_TABLE=None, VF_NEED_CONVERTER=None)))
+    allu = LEAF_UNITS + ['partial/idn2/is_utf8_domain.c', 'src/eav.c']
+    for m in range(4):
+        qs.append(mk(EMAIL_FN[m], [EMAIL_SRC[m]] + allu, D(VF_EMAIL=EMAIL_FN[m], VF_SMALL_TABLE=None, VF_NEED_CONVERTER=None)))
+    qs.append(mk('eav_is_email', EMAIL_SRC + allu + ['partial/idn2/eav.c'], D(VF_API=None, VF_SMALL_TABLE=None, VF_NEED_CONVERTER=None)))
+    return qs
+
+
 PROPS = {
+    'C14': {
+        'queries': c14_queries, 'pre': pre.c14_pre,
+        'level': 'model_checking',
+        'outside': ['real thread schedules: decided by a sequential write-set / static-state reduction, not by exploring interleavings '
+                    '(CBMC threads were probed and found unsound for this code, see DESIGN.md)',
+                    'libidn2 / glibc internals (idn2_strerror gettext state, malloc arenas)'],
+        'assumptions': ['meta-argument: code that writes only its own stack, its own eav_t/result objects and fresh heap, and reads besides '
+                        'those only const tables and the caller strings, cannot race with or observe another instance'],
+    },
     'C06': {
         'queries': c06_queries,
         'level': 'model_checking',
